@@ -10,13 +10,28 @@
 //	                      (after its instance decided) and the object was not submitted
 //	  submission-prevented-multiroot : the same, in a duty with several roots where some member's message mixed
 //	                      correct and wrong partial signatures (the history of the C05 finding)
+//
+// -mode record: the implementation -> specification direction. Seeded random executions of the driver's own making
+// (every role, committees of 4/7/10/13, one to three roots, <= f Byzantine members that send garbage, signatures
+// over another message, undeserialisable bytes, another member's valid share, the point at infinity, duplicates,
+// replacements, extra / missing / repeated / wrong roots, wrong slots, inconsistent signer ids; retransmissions
+// after the quorum and after the submission) run on the real runners under the same monitors, and every
+// ProcessPostConsensus / ProcessPreConsensus call is logged at its return as one NDJSON event (sender, class of
+// every partial signature as verified by the driver with herumi BLS, error class, the Submit* calls the spy saw
+// during the call with the driver's verdict on the submitted signature, shares held per root, Finished). TLC
+// validates the files against spec/PartialSigTrace.tla (one file per committee size and number of roots).
+// -mode retrace re-executes the executions of such a file (the replay of a violation found on a recorded state).
 package main
 
 import (
+	"bufio"
+	"crypto/sha256"
+	"encoding/json"
 	"flag"
 	"fmt"
 	"math/rand"
 	"os"
+	"path/filepath"
 	"strings"
 
 	"github.com/attestantio/go-eth2-client/spec/phase0"
@@ -138,6 +153,15 @@ type world struct {
 	reported  map[string]bool
 	nontriv   bool
 	flavour   int
+	lastSubs  []subObs // the Submit* calls the spy saw during the last Recv
+	lastKinds []string // per root: class of the partial signature of the last message as VERIFIED by the driver
+}
+
+// subObs: one Submit* call as judged by the driver (obj = number of the decided object, 0 = not a decided one)
+type subObs struct {
+	Obj    int    `json:"obj"`
+	OK     bool   `json:"ok"`
+	Method string `json:"m"`
 }
 
 func newWorld(t *template, res *vh.Result, beh string, flavour int) *world {
@@ -174,27 +198,108 @@ type msgSpec struct {
 	kinds []string // per root (1-based root r at index r-1)
 	ord   []int    // message order, 1-based roots
 	cls   string
+	// record mode only (empty in replayed TLC behaviours):
+	bad   []string // per root: which wrong signature stands for kind "bad" (badKinds); "" = the replay's flavour rule
+	sid   int      // envelope signer id of a "foreign" message (0 = n+1)
+	shape string   // variant of a refused class (badCount: extra|extrawrong|missing|empty, wrongSlot: next|prev)
+}
+
+// the wrong partial signatures of the record mode (all of them are kind "bad" of the spec)
+var badKinds = []string{"wrongroot", "stranger", "undeser", "othershare", "garbage", "infinity"}
+
+func (w *world) badSig(kind string, signer spectypes.OperatorID, root [32]byte) []byte {
+	t := w.t
+	switch kind {
+	case "wrongroot": // the signer's own share over another message
+		return t.kit.BadSig(signer, root, 0)
+	case "stranger": // a key that is nobody's share, over the right root
+		return t.kit.BadSig(signer, root, 1)
+	case "undeser": // 96 bytes that are no curve point
+		return t.kit.BadSig(signer, root, 2)
+	case "othershare": // the VALID partial signature of another member's share over the right root
+		other := spectypes.OperatorID(int(signer)%t.n + 1)
+		return t.kit.GoodSig(other, root)
+	case "garbage": // pseudo-random bytes (a function of signer and root: recorded executions are re-executable)
+		out := make([]byte, 0, 96)
+		for i := byte(0); len(out) < 96; i++ {
+			h := sha256.Sum256(append([]byte{'g', i, byte(signer)}, root[:]...))
+			out = append(out, h[:]...)
+		}
+		return out[:96]
+	case "infinity": // the compressed point at infinity: deserialises, verifies nothing
+		out := make([]byte, 96)
+		out[0] = 0xc0
+		return out
+	}
+	machinery("unknown wrong-signature kind %q", kind)
+	return nil
+}
+
+// psMsg: like Kit.PartialSigMsg, with a signer id per partial signature (the envelope is signed by the envelope
+// signer's share, or by a stranger's key when that id has none; the runner does not verify the envelope).
+func (w *world) psMsg(slot phase0.Slot, env spectypes.OperatorID, inner []spectypes.OperatorID, roots [][32]byte, sigs [][]byte) *spectypes.SSVMessage {
+	k := w.t.kit
+	msgs := spectypes.PartialSignatureMessages{Type: w.t.ptype, Slot: slot}
+	for i := range roots {
+		msgs.Messages = append(msgs.Messages, &spectypes.PartialSignatureMessage{PartialSignature: sigs[i], SigningRoot: roots[i], Signer: inner[i]})
+	}
+	sk := k.KS.Shares[env]
+	if sk == nil {
+		sk = k.KS.Shares[1]
+	}
+	r, err := spectypes.ComputeSigningRoot(msgs, spectypes.ComputeSignatureDomain(k.Share.DomainType, spectypes.PartialSignatureType))
+	if err != nil {
+		machinery("signing root of a partial signature message: %v", err)
+	}
+	signed := &spectypes.SignedPartialSignatureMessage{Message: msgs, Signature: sk.SignByte(r[:]).Serialize(), Signer: env}
+	data, err := signed.Encode()
+	if err != nil {
+		machinery("encoding a partial signature message: %v", err)
+	}
+	return &spectypes.SSVMessage{MsgType: spectypes.SSVPartialSignatureMsgType, MsgID: k.MsgID(rk.BeaconRole(w.t.role)), Data: data}
 }
 
 func (w *world) build(m msgSpec) *spectypes.SSVMessage {
 	t := w.t
 	signer := spectypes.OperatorID(m.s)
+	if m.cls == "foreign" && m.sid != 0 {
+		signer = spectypes.OperatorID(m.sid)
+	}
+	if m.cls == "foreign" && m.sid < 0 {
+		signer = 0 // "signer ID 0 not allowed"
+	}
 	var roots [][32]byte
 	var sigs [][]byte
+	var inner []spectypes.OperatorID
+	w.lastKinds = make([]string, len(t.objs))
 	for pos, r := range m.ord {
 		o := t.objs[r-1]
 		root := o.SigningRoot
 		var sig []byte
+		name := "good"
 		switch {
 		case m.cls == "foreign":
-			sig = t.kit.BadSig(1, root, 1)
+			sig, name = t.kit.BadSig(1, root, 1), "stranger"
 		case m.kinds[r-1] == "good":
 			sig = t.kit.GoodSig(signer, root)
+		case len(m.bad) == len(t.objs) && m.bad[r-1] != "":
+			sig, name = w.badSig(m.bad[r-1], signer, root), m.bad[r-1]
 		default:
-			sig = t.kit.BadSig(signer, root, w.flavour+pos+m.s)
+			fl := (w.flavour + pos + m.s) % 3
+			sig, name = t.kit.BadSig(signer, root, fl), []string{"wrongroot", "stranger", "undeser"}[fl]
 		}
+		// the class that is logged and monitored is what the DRIVER verifies, not what it meant to build
+		if sk := t.kit.KS.Shares[signer]; sk != nil && m.s >= 1 && m.s <= t.n {
+			if verifyUnder(sk.GetPublicKey(), sig, root) {
+				name = "good"
+			} else if name == "good" {
+				machinery("a correct share signature of member %d does not verify", m.s)
+			}
+		}
+		w.lastKinds[r-1] = name
 		roots = append(roots, root)
 		sigs = append(sigs, sig)
+		inner = append(inner, signer)
 	}
 	slot := t.duty.Slot
 	switch m.cls {
@@ -204,15 +309,36 @@ func (w *world) build(m msgSpec) *spectypes.SSVMessage {
 			sigs[0] = t.kit.GoodSig(signer, roots[0])
 		}
 	case "wrongSlot":
-		slot++
-	case "badCount":
-		if len(roots) > 1 {
-			roots, sigs = roots[:len(roots)-1], sigs[:len(sigs)-1]
+		if m.shape == "prev" {
+			slot--
 		} else {
-			roots, sigs = append(roots, roots[0]), append(sigs, sigs[0])
+			slot++
+		}
+	case "badCount":
+		shape := m.shape
+		if shape == "" {
+			shape = "missing"
+			if len(roots) == 1 {
+				shape = "extra"
+			}
+		}
+		switch shape {
+		case "missing", "empty":
+			roots, sigs, inner = roots[:len(roots)-1], sigs[:len(sigs)-1], inner[:len(inner)-1]
+		case "extrawrong":
+			wr := rk.WrongRoot(uint64(m.s) + 77)
+			roots, sigs, inner = append(roots, wr), append(sigs, t.kit.GoodSig(signer, wr)), append(inner, signer)
+		default:
+			roots, sigs, inner = append(roots, roots[0]), append(sigs, sigs[0]), append(inner, signer)
+		}
+	case "signerMismatch":
+		inner[len(inner)-1] = spectypes.OperatorID(m.s%t.n + 1) // another member's id inside the envelope of m.s
+	case "dupRoot":
+		if len(roots) >= 2 {
+			roots[1], sigs[1] = roots[0], sigs[0]
 		}
 	}
-	return t.kit.PartialSigMsg(rk.BeaconRole(t.role), t.ptype, slot, signer, roots, sigs)
+	return w.psMsg(slot, signer, inner, roots, sigs)
 }
 
 func (w *world) container() map[int]map[int]string {
@@ -247,6 +373,7 @@ func (w *world) checkSubmits() {
 	t := w.t
 	vpk := t.kit.KS.ValidatorPK
 	subs := t.kit.BN.Submits
+	w.lastSubs = []subObs{}
 	for ; w.seenSub < len(subs); w.seenSub++ {
 		c := subs[w.seenSub]
 		idx := -1
@@ -256,15 +383,20 @@ func (w *world) checkSubmits() {
 			}
 		}
 		if idx < 0 {
+			w.lastSubs = append(w.lastSubs, subObs{0, false, c.Method})
 			w.violate("invalid-submission", fmt.Sprintf("%s submitted an object (root %x) that is not contained in the decided value", c.Method, c.ObjRoot[:6]))
 			continue
 		}
+		ob := subObs{idx + 1, true, c.Method}
 		if !verifyUnder(vpk, c.Sig[:], t.objs[idx].SigningRoot) {
+			ob.OK = false
 			w.violate("invalid-submission", fmt.Sprintf("%s: the submitted signature does not verify under the validator public key over the signing root of decided object %d", c.Method, idx+1))
 		}
 		if c.Method == "SubmitSyncMessage" && c.Note != fmt.Sprintf("slot=%d validator=%d", t.duty.Slot, t.duty.ValidatorIndex) {
+			ob.OK = false
 			w.violate("invalid-submission", "sync committee message submitted with "+c.Note+" for a duty with another slot/validator index")
 		}
+		w.lastSubs = append(w.lastSubs, ob)
 		w.subCount[idx]++
 		if w.subCount[idx] > 1 {
 			w.violate("duplicate-submission", fmt.Sprintf("%s: decided object %d was submitted %d times", c.Method, idx+1, w.subCount[idx]))
@@ -307,7 +439,7 @@ func (w *world) recv(m msgSpec) error {
 	if m.cls == "ok" && m.s >= 1 && m.s <= t.n {
 		g, b := 0, 0
 		for r := range t.objs {
-			if m.kinds[r] == "good" {
+			if w.lastKinds[r] == "good" {
 				w.delivered[r][m.s] = true
 				g++
 			} else {
@@ -350,7 +482,10 @@ func replay(b vh.Behaviour, role string, n, r int, full bool, res *vh.Result, id
 		if len(m.kinds) != r || len(m.ord) != r {
 			machinery("behaviour %s step %d: %d kinds / %d ord for %d roots", b.ID, i, len(m.kinds), len(m.ord), r)
 		}
-		w.recv(m)
+		err := w.recv(m)
+		if want := vh.Str(a, "err"); want != "" && want != errClass(err) {
+			res.Diverge(w.beh, i, "err", want, errClass(err))
+		}
 		if st.State == nil {
 			continue
 		}
@@ -445,6 +580,322 @@ func randomRuns(seed int64, runs int, ns []int, roles []string, res *vh.Result) 
 	}
 }
 
+
+// ---------------------------------------------------------------------------------------------------
+// record mode: seeded random executions of the harness's own making on the real runners, one NDJSON event per
+// ProcessPostConsensus / ProcessPreConsensus call at its return, validated by TLC against spec/PartialSigTrace.tla
+// (one trace file per committee size and number of roots: they are constants of the specification).
+
+// errClass: the error class of a ProcessP*Consensus call as the specification names it
+func errClass(err error) string {
+	if err == nil {
+		return "none"
+	}
+	e := err.Error()
+	switch {
+	case strings.Contains(e, "invalid post-consensus message"), strings.Contains(e, "invalid pre-consensus message"):
+		return "refused"
+	case strings.Contains(e, "quorum but it has invalid signatures"):
+		return "invalid"
+	}
+	if len(e) > 60 {
+		e = e[:60]
+	}
+	return "other:" + e
+}
+
+type execution struct {
+	id     string
+	role   string
+	n, r   int
+	faulty []int
+	msgs   []msgSpec
+}
+
+type recorder struct {
+	dir     string
+	writers map[string]*vh.TraceWriter
+	counts  map[string]int
+}
+
+func (rc *recorder) writer(n, r int) *vh.TraceWriter {
+	key := fmt.Sprintf("trace_n%d_r%d.ndjson", n, r)
+	if tw, ok := rc.writers[key]; ok {
+		return tw
+	}
+	tw, err := vh.NewTraceWriter(filepath.Join(rc.dir, key))
+	if err != nil {
+		machinery("trace file: %v", err)
+	}
+	rc.writers[key] = tw
+	return tw
+}
+
+func (rc *recorder) close() {
+	for _, tw := range rc.writers {
+		if err := tw.Close(); err != nil {
+			machinery("trace file: %v", err)
+		}
+	}
+}
+
+// runExecution applies the messages of one execution to a fresh real runner and emits its events.
+func runExecution(e execution, full bool, res *vh.Result, rc *recorder) {
+	t := fresh(e.role, e.n, e.r, full)
+	w := newWorld(t, res, e.id, 0)
+	tw := rc.writer(e.n, e.r)
+	fl := e.faulty
+	if fl == nil {
+		fl = []int{}
+	}
+	tw.Emit(map[string]any{"event": "Reset", "exec": e.id, "role": e.role, "n": e.n, "r": e.r, "faulty": fl, "pre": t.pre})
+	for i, m := range e.msgs {
+		w.step = i
+		err := w.recv(m)
+		cont := w.container()
+		nsh, nbad := make([]int, e.r), make([]int, e.r)
+		for r := 1; r <= e.r; r++ {
+			for _, k := range cont[r] {
+				if k != "none" {
+					nsh[r-1]++
+				}
+				if k == "bad" {
+					nbad[r-1]++
+				}
+			}
+		}
+		ev := map[string]any{"event": "Recv", "s": m.s, "kinds": w.lastKinds, "ord": m.ord, "cls": m.cls, "err": errClass(err),
+			"subs": w.lastSubs, "nsh": nsh, "nbad": nbad, "fin": w.finished()}
+		if m.cls == "foreign" {
+			ev["sid"] = m.sid
+		}
+		if m.shape != "" {
+			ev["shape"] = m.shape
+		}
+		tw.Emit(ev)
+		rc.counts["cls:"+m.cls]++
+		rc.counts["err:"+strings.SplitN(errClass(err), ":", 2)[0]]++
+		for _, k := range w.lastKinds {
+			if m.cls == "ok" {
+				rc.counts["kind:"+k]++
+			}
+		}
+		rc.counts["submissions"] += len(w.lastSubs)
+	}
+	rc.counts[fmt.Sprintf("role:%s", e.role)]++
+	rc.counts[fmt.Sprintf("n:%d", e.n)]++
+	res.Behaviours++
+	res.Steps += len(e.msgs)
+	if w.nontriv {
+		res.Nontrivial++
+	}
+	if full || e.role == rk.Contribution {
+		t.kit.Close()
+	}
+}
+
+func idOrd(r int) []int {
+	o := make([]int, r)
+	for i := range o {
+		o[i] = i + 1
+	}
+	return o
+}
+
+func goodMsg(s, r int) msgSpec {
+	m := msgSpec{s: s, cls: "ok", ord: idOrd(r), bad: make([]string, r)}
+	for j := 0; j < r; j++ {
+		m.kinds = append(m.kinds, "good")
+	}
+	return m
+}
+
+// faultyMsg: one message of a Byzantine member
+func faultyMsg(rng *rand.Rand, s, n, r int, prev *msgSpec) msgSpec {
+	x := rng.Intn(100)
+	if prev != nil && x < 10 {
+		return *prev // exact duplicate of its previous message
+	}
+	m := goodMsg(s, r)
+	switch {
+	case x < 62: // accepted class: every root correct or wrong, in an order of the sender's choice
+		allGood := true
+		for j := 0; j < r; j++ {
+			if rng.Intn(2) == 0 {
+				m.kinds[j], m.bad[j] = "bad", badKinds[rng.Intn(len(badKinds))]
+				allGood = false
+			}
+		}
+		if allGood && rng.Intn(2) == 0 {
+			j := rng.Intn(r)
+			m.kinds[j], m.bad[j] = "bad", badKinds[rng.Intn(len(badKinds))]
+		}
+		rng.Shuffle(r, func(a, b int) { m.ord[a], m.ord[b] = m.ord[b], m.ord[a] })
+	case x < 70:
+		m.cls = "wrongRoot"
+	case x < 78:
+		m.cls, m.shape = "wrongSlot", []string{"next", "prev"}[rng.Intn(2)]
+	case x < 88:
+		m.cls = "badCount"
+		shapes := []string{"extra", "extrawrong", "empty"}
+		if r > 1 {
+			shapes = []string{"extra", "extrawrong", "missing"}
+		}
+		m.shape = shapes[rng.Intn(len(shapes))]
+	case x < 95 || r < 2:
+		m.cls = "signerMismatch"
+	default:
+		m.cls = "dupRoot"
+	}
+	return m
+}
+
+func foreignMsg(rng *rand.Rand, n, r int) msgSpec {
+	m := goodMsg(n+1, r)
+	m.cls = "foreign"
+	m.sid = []int{n + 1, n + 2, 1000, -1}[rng.Intn(4)]
+	return m
+}
+
+// genExecution: arrival order and Byzantine behaviour of one execution
+func genExecution(rng *rand.Rand, k int, n int, role string, r int) execution {
+	f := (n - 1) / 3
+	nf := f
+	if rng.Intn(2) == 0 {
+		nf = rng.Intn(f + 1)
+	}
+	perm := rng.Perm(n)
+	isFaulty := map[int]bool{}
+	e := execution{id: fmt.Sprintf("rec-%d@%s/n%d/r%d", k, role, n, r), role: role, n: n, r: r, faulty: []int{}}
+	for _, x := range perm[:nf] {
+		isFaulty[x+1] = true
+		e.faulty = append(e.faulty, x+1)
+	}
+	last := map[int]*msgSpec{}
+	mk := func(s int) msgSpec {
+		var m msgSpec
+		if isFaulty[s] {
+			m = faultyMsg(rng, s, n, r, last[s])
+		} else {
+			m = goodMsg(s, r)
+		}
+		cp := m
+		last[s] = &cp
+		return m
+	}
+	var honest, byz []msgSpec
+	for s := 1; s <= n; s++ {
+		if !isFaulty[s] {
+			honest = append(honest, mk(s))
+			if rng.Intn(5) == 0 {
+				honest = append(honest, mk(s)) // retransmission
+			}
+			continue
+		}
+		for c := 1 + rng.Intn(3); c > 0; c-- {
+			byz = append(byz, mk(s))
+		}
+	}
+	rng.Shuffle(len(honest), func(a, b int) { honest[a], honest[b] = honest[b], honest[a] })
+	rng.Shuffle(len(byz), func(a, b int) { byz[a], byz[b] = byz[b], byz[a] })
+	var seq []msgSpec
+	switch rng.Intn(4) {
+	case 0: // the Byzantine messages first
+		seq = append(append(seq, byz...), honest...)
+	case 1: // the Byzantine messages around the quorum edge
+		cut := 2*f - rng.Intn(2)
+		if cut > len(honest) {
+			cut = len(honest)
+		}
+		seq = append(append(append(seq, honest[:cut]...), byz...), honest[cut:]...)
+	default: // any order
+		seq = append(append(seq, honest...), byz...)
+		rng.Shuffle(len(seq), func(a, b int) { seq[a], seq[b] = seq[b], seq[a] })
+	}
+	if rng.Intn(4) == 0 {
+		at := rng.Intn(len(seq) + 1)
+		seq = append(seq[:at:at], append([]msgSpec{foreignMsg(rng, n, r)}, seq[at:]...)...)
+	}
+	// after the quorum / after the submission: retransmissions and more Byzantine messages
+	for c := 2 + rng.Intn(4); c > 0; c-- {
+		s := 1 + rng.Intn(n)
+		if rng.Intn(3) == 0 && len(e.faulty) > 0 {
+			s = e.faulty[rng.Intn(len(e.faulty))]
+		}
+		seq = append(seq, mk(s))
+	}
+	e.msgs = seq
+	return e
+}
+
+func recordRuns(seed int64, runs int, ns []int, roles []string, res *vh.Result, rc *recorder) {
+	rng := rand.New(rand.NewSource(seed*7919 + 17))
+	for k := 0; k < runs; k++ {
+		n := ns[k%len(ns)]
+		role := roles[rng.Intn(len(roles))]
+		if rng.Intn(5) == 0 {
+			for _, x := range roles {
+				if x == rk.Contribution {
+					role = x // the only duty with several roots gets a larger share
+				}
+			}
+		}
+		r := 1
+		if role == rk.Contribution {
+			r = 1 + rng.Intn(3)
+		}
+		runExecution(genExecution(rng, k, n, role, r), k%40 == 0, res, rc)
+	}
+}
+
+// retrace: re-executes the executions of a recorded trace (slice) on fresh real runners and records them again
+func retrace(path string, res *vh.Result, rc *recorder) {
+	f, err := os.Open(path)
+	if err != nil {
+		machinery("%v", err)
+	}
+	defer f.Close()
+	sc := bufio.NewScanner(f)
+	sc.Buffer(make([]byte, 1<<20), 1<<26)
+	var cur *execution
+	flush := func() {
+		if cur != nil {
+			runExecution(*cur, true, res, rc)
+		}
+	}
+	for sc.Scan() {
+		if len(sc.Bytes()) == 0 {
+			continue
+		}
+		var ev map[string]any
+		if err := json.Unmarshal(sc.Bytes(), &ev); err != nil {
+			machinery("bad trace line: %v", err)
+		}
+		switch vh.Str(ev, "event") {
+		case "Reset":
+			flush()
+			cur = &execution{id: vh.Str(ev, "exec"), role: vh.Str(ev, "role"), n: vh.Int(ev, "n"), r: vh.Int(ev, "r"), faulty: vh.Ints(ev, "faulty")}
+		case "Recv":
+			if cur == nil {
+				machinery("trace slice does not start with a Reset event")
+			}
+			m := msgSpec{s: vh.Int(ev, "s"), ord: vh.Ints(ev, "ord"), cls: vh.Str(ev, "cls"), sid: vh.Int(ev, "sid"), shape: vh.Str(ev, "shape")}
+			for _, k := range strs(vh.List(ev, "kinds")) {
+				if k == "good" {
+					m.kinds, m.bad = append(m.kinds, "good"), append(m.bad, "")
+				} else {
+					m.kinds, m.bad = append(m.kinds, "bad"), append(m.bad, k)
+				}
+			}
+			if m.cls == "foreign" {
+				m.bad = nil
+			}
+			cur.msgs = append(cur.msgs, m)
+		}
+	}
+	flush()
+}
+
 func selfTest() {
 	kit := rk.New(rk.Options{N: 4})
 	defer kit.Close()
@@ -458,10 +909,17 @@ func selfTest() {
 			machinery("self-test: wrong partial signature of flavour %d verifies", fl)
 		}
 	}
+	w := &world{t: &template{kit: kit, n: 4}}
+	for _, k := range badKinds {
+		if verifyUnder(pk, w.badSig(k, 2, root), root) {
+			machinery("self-test: wrong partial signature of kind %s verifies", k)
+		}
+	}
 }
 
 func main() {
-	mode := flag.String("mode", "replay", "replay | random")
+	mode := flag.String("mode", "replay", "replay | random | record | retrace")
+	traceDir := flag.String("tracedir", "", "record / retrace: directory of the recorded trace files (trace_n<N>_r<R>.ndjson)")
 	in := flag.String("in", "", "behaviours NDJSON")
 	out := flag.String("out", "", "result JSON")
 	n := flag.Int("n", 4, "committee size of the behaviours")
@@ -511,6 +969,33 @@ func main() {
 			ns = append(ns, v)
 		}
 		randomRuns(*seed, *runs, ns, roles, res)
+	case "record", "retrace":
+		if *traceDir == "" {
+			machinery("-tracedir is required")
+		}
+		if err := os.MkdirAll(*traceDir, 0o755); err != nil {
+			machinery("%v", err)
+		}
+		old, _ := filepath.Glob(filepath.Join(*traceDir, "trace_n*_r*.ndjson"))
+		for _, p := range old {
+			os.Remove(p)
+		}
+		rc := &recorder{dir: *traceDir, writers: map[string]*vh.TraceWriter{}, counts: map[string]int{}}
+		if *mode == "retrace" {
+			retrace(*in, res, rc)
+		} else {
+			var ns []int
+			for _, x := range strings.Split(*nsF, ",") {
+				var v int
+				fmt.Sscanf(x, "%d", &v)
+				ns = append(ns, v)
+			}
+			recordRuns(*seed, *runs, ns, roles, res, rc)
+		}
+		rc.close()
+		for k, v := range rc.counts {
+			res.Counters["rec_"+k] = v
+		}
 	}
 	if err := res.Write(*out); err != nil {
 		fmt.Fprintln(os.Stderr, err)
